@@ -168,6 +168,57 @@ def run(ctx):
                                     detail={"operator": opk, "pattern": lit, "extra": sorted(x.decode("utf-8", "replace") for x in got - want)[:5],
                                             "missing": sorted(x.decode("utf-8", "replace") for x in want - got)[:5]})
                 ctx.sample({"argv": [q], "rows": len(got)}, every=17)
+            # two pattern atoms in one query: same text under different operator families, or differing
+            # only in letter case (the compiled-pattern cache must not confuse them)
+            for _ in range(10 if quick else 30):
+                base = rr.choice(names)
+                alnum = "".join(c for c in base if c.isalpha()) or "ab"
+                k = rr.below(4)
+                if k == 0:
+                    p1, p2 = "^" + alnum[:2], "^" + alnum[:2].swapcase()
+                    atoms = [("=~", p1), ("=~", p2)]
+                elif k == 1:
+                    p1 = alnum[:1] + "*"
+                    atoms = [("=", p1), ("=~", p1)]
+                elif k == 2:
+                    p1 = "%" + alnum[:1]
+                    atoms = [("like", p1), ("=", p1.replace("%", "*")), ("=~", p1)]
+                else:
+                    p1 = "[" + alnum[:1] + "]"
+                    atoms = [("=~", p1), ("!=~", p1.swapcase()), ("=", p1)]
+                conn = rr.choice([" or ", " and "])
+                parts = []
+                okq = True
+                for opk, lit in atoms:
+                    ql = quote(lit)
+                    if ql is None:
+                        okq = False
+                    parts.append("name %s %s" % (opk, ql))
+                if not okq:
+                    continue
+                q = "select name from . where " + conn.join(parts) + " into list"
+                ctx.case(("cli2", q, rd))
+                m, impl = corr.run_case(ctx, snap, [q], fmt="list", ncols=1)
+                if impl["status"] != 0:
+                    continue
+                got = set(impl["out"].split(b"\0")[:-1])
+                want = set()
+                undec = False
+                for n in snap.nodes:
+                    vals = [oracle.holds(n, "name", "text", opk, lit) for opk, lit in atoms]
+                    if any(v is None for v in vals):
+                        undec = True
+                        break
+                    if (any(vals) if conn == " or " else all(vals)):
+                        want.add(n["name"].encode())
+                if undec:
+                    continue
+                ctx.distinct.add(("cli2", q, rd))
+                if got != want:
+                    ctx.oracle_fail("two pattern atoms in one query interfere (rows differ from combining their separate meanings)",
+                                    {"argv": [q], "names": names[:40]},
+                                    detail={"extra": sorted(x.decode("utf-8", "replace") for x in got - want)[:5],
+                                            "missing": sorted(x.decode("utf-8", "replace") for x in want - got)[:5]})
             common.rm_tree(snap.root)
     finally:
         common.rm_tree(scratch)
